@@ -480,9 +480,21 @@ fn c10_encode_announce_signed_peer_is_field_for_field() {
     core::mem::forget(d);
 }
 
+/// contract stub for Id::from_bytes on a 20-byte array (its contract — Ok <=> 20 bytes, the bytes
+/// unchanged — is discharged on the real code by common::id::verif_kani::c19_from_bytes_total): with
+/// it every `Id::from_bytes(..)?` in from_serde_message has a CONSTANT Ok discriminant and CBMC prunes
+/// the error path (conversion into DecodeMessageError, drop of all live fields) at ~30 sites
+fn stub_id_from_bytes<T: AsRef<[u8]>>(bytes: T) -> Result<Id, crate::common::InvalidIdSize> {
+    let b = bytes.as_ref();
+    let mut x = [0u8; ID_SIZE];
+    x.copy_from_slice(&b[..ID_SIZE]);
+    Ok(Id::from(x))
+}
+
 /// decode half, announce_signed_peer
 #[kani::proof]
 #[kani::unwind(70)]
+#[kani::stub(Id::from_bytes, stub_id_from_bytes)]
 fn c10_decode_announce_signed_peer_is_field_for_field() {
     let t: i64 = kani::any();
     let k0: u8 = kani::any();
